@@ -328,8 +328,10 @@ func runPipeScenario(t *testing.T, sc pScenario, table bool) (res pResult) {
 			}
 		}
 
-		commit := func(typ, id string, destroyed resource.Resource) {
-			s := book.seq.Add(1)
+		// s is the sequence number drawn BEFORE the write was issued: a reconcile that started after the commit has a
+		// larger number for sure (one that started between drawing and commit may not have seen the change and is accepted:
+		// the monitor never raises an alarm because of the order in which this goroutine and the controllers are scheduled)
+		commit := func(s int64, typ, id string, destroyed resource.Resource) {
 
 			r, err := st.Get(ctx, resource.NewMetadata("n1", typ, id, resource.VersionUndefined))
 			if err != nil {
@@ -350,6 +352,7 @@ func runPipeScenario(t *testing.T, sc pScenario, table bool) (res pResult) {
 
 		doWrite := func(w pWrite) bool {
 			ptr := resource.NewMetadata("n1", w.Typ, w.ID, resource.VersionUndefined)
+			seqBefore := book.seq.Add(1)
 
 			switch w.Op {
 			case "create":
@@ -394,14 +397,14 @@ func runPipeScenario(t *testing.T, sc pScenario, table bool) (res pResult) {
 					return false
 				}
 
-				commit(w.Typ, w.ID, cur)
+				commit(seqBefore, w.Typ, w.ID, cur)
 
 				return true
 			default:
 				return false
 			}
 
-			commit(w.Typ, w.ID, nil)
+			commit(seqBefore, w.Typ, w.ID, nil)
 
 			return true
 		}
@@ -1023,11 +1026,11 @@ func runConcurrentInputAdd(t *testing.T, slowWatch time.Duration) (problems []st
 	}
 
 	// p2's input is declared now
+	committed := book.seq.Add(1) // drawn before the write
+
 	if err := st.Create(ctx, newRes("n1", "V", "r1", "p0")); err != nil {
 		t.Fatal(err)
 	}
-
-	committed := book.seq.Add(1)
 
 	if err := <-first; err != nil {
 		t.Fatal(err)
@@ -1106,11 +1109,13 @@ func runRegistrationBurst(t *testing.T, slowWatch time.Duration, nKeys int, qSec
 	for i := range nKeys {
 		id := fmt.Sprintf("k%d", i)
 
+		before := book.seq.Add(1) // drawn before the write, see runPipeScenario
+
 		if err := st.Create(ctx, newRes("n1", "T", id, "p0")); err != nil {
 			t.Fatal(err)
 		}
 
-		latest["T/"+id] = book.seq.Add(1)
+		latest["T/"+id] = before
 	}
 
 	if err := <-regDone; err != nil {
